@@ -189,6 +189,15 @@ func (ms msgServer) PauseGroup(goCtx context.Context, msg *types.MsgPauseGroup) 
 		return nil, types.ErrGroupNotFound
 	}
 
+	// a group is paused only under an active deployment
+	deployment, found := ms.deployment.GetDeployment(ctx, msg.ID.DeploymentID())
+	if !found {
+		return nil, types.ErrDeploymentNotFound
+	}
+	if deployment.State != types.DeploymentActive {
+		return nil, types.ErrDeploymentClosed
+	}
+
 	// if Group already closed; return the validation error
 	err := group.ValidatePausable()
 	if err != nil {
@@ -211,6 +220,15 @@ func (ms msgServer) StartGroup(goCtx context.Context, msg *types.MsgStartGroup) 
 	group, found := ms.deployment.GetGroup(ctx, msg.ID)
 	if !found {
 		return &types.MsgStartGroupResponse{}, types.ErrGroupNotFound
+	}
+
+	// a group is started only under an active deployment
+	deployment, found := ms.deployment.GetDeployment(ctx, msg.ID.DeploymentID())
+	if !found {
+		return &types.MsgStartGroupResponse{}, types.ErrDeploymentNotFound
+	}
+	if deployment.State != types.DeploymentActive {
+		return &types.MsgStartGroupResponse{}, types.ErrDeploymentClosed
 	}
 
 	err := group.ValidateStartable()
